@@ -196,6 +196,15 @@ func lmNormalize(read string, code int, body []byte) string {
 	}
 	ep := strings.SplitN(strings.SplitN(read, "?", 2)[0], "/", 2)[0]
 	switch ep {
+	case "fields":
+		// neuronjson: the set of field names; the list order is Go map iteration order
+		var names []string
+		if json.Unmarshal(body, &names) == nil {
+			sort.Strings(names)
+			b, _ := json.Marshal(names)
+			return "200:" + string(b)
+		}
+		return fmt.Sprintf("200:%x", body)
 	case "sparsevol", "sparsevol-coarse":
 		vox, err := lmParseSparse(body)
 		if err != nil {
